@@ -95,7 +95,9 @@ func DescribeEntry(e *Entry) string {
 	if !e.Delivered && e.Err == "" && e.Resp == nil {
 		b.WriteString("(in flight)")
 	}
-	type regionErrer interface{ GetRegionError() interface{ String() string } }
+	type regionErrer interface {
+		GetRegionError() interface{ String() string }
+	}
 	switch r := e.Resp.(type) {
 	case *kvrpcpb.PrewriteResponse:
 		if r.RegionError != nil {
@@ -192,11 +194,26 @@ func DescribeEntry(e *Entry) string {
 	return b.String()
 }
 
-// Describe renders the whole trace.
+// Describe renders the whole trace; runs of entries that differ only in their sequence number are folded.
 func (t *Trace) Describe() string {
 	var lines []string
-	for _, e := range t.Since(0) {
-		lines = append(lines, DescribeEntry(e))
+	prev, n := "", 0
+	flush := func() {
+		if n > 1 {
+			lines[len(lines)-1] += fmt.Sprintf("   (x%d)", n)
+		}
 	}
+	for _, e := range t.Since(0) {
+		l := DescribeEntry(e)
+		body := l[strings.Index(l, " ")+1:]
+		if body == prev {
+			n++
+			continue
+		}
+		flush()
+		lines = append(lines, l)
+		prev, n = body, 1
+	}
+	flush()
 	return strings.Join(lines, "\n")
 }
